@@ -1,3 +1,8 @@
 import OAuth2Model.Model.Form
 import OAuth2Model.Model.Base64
 import OAuth2Model.Model.Request
+import OAuth2Model.Model.Json
+import OAuth2Model.Model.Serde
+import OAuth2Model.Model.ErrorCodes
+import OAuth2Model.Model.TokenResponse
+import OAuth2Model.Model.ErrorResponse
